@@ -277,6 +277,9 @@ def rule_shared(program, ctx, prop=P, rid="C02.shared"):
 
 
 def run(program, ctx):
+    from ..lib import rule_awaited
+
+    rule_awaited(program, ctx, P, ANCHORS)
     from . import c07
 
     # an event whose tag rows are written in another transaction than its own row can end up stored without them:
@@ -300,6 +303,16 @@ def run(program, ctx):
     rule_layout(program, ctx)
     rule_plans(program, ctx)
     rule_shared(program, ctx)
+    # the filter model normalises ids/authors (hex, lower case) *before* it dedupes and sorts them - the LMDB scanner relies on a
+    # deduplicated, descending list of normalised ids; the hand serializer must not fail on a stored event (the sender task drops it silently)
+    from . import c01, c04
+
+    ridm = ctx.rule("C02.model", "NostrQuery: ids/authors are hex-checked and lower-cased by AfterValidator(ids_are_hex) in the field annotation (runs before the "
+                    "dedupe/sort field validator); kinds/since/until/limit are int-typed (see C01.model)", floor=3)
+    c01.derive_model_fields(program, ctx, ridm, prop=P)
+    c04.rule_serializer(program, ctx, c04.canonical_fields(program, ctx, ctx.rule("C02.canonical", "admission proves canonical id/pubkey/sig/created_at (input to C02.serializer)", floor=0)), prop=P, rid="C02.serializer")
+    c01.rule_tagindex(program, ctx, prop=P, rid="C02.tagindex")
+    c01.rule_emptylist(program, ctx, prop=P, rid="C02.emptylist")
     ctx.not_decided += [
         "completeness of Index.scanner / MultiIndex over arbitrary key neighbourhoods (seek sentinel, stop key, prefix test on variable-length tag keys, equal timestamps, ids starting 0xff)",
         "exactly-once on SQL (engine semantics); bound-parameter naming collisions across filters",
